@@ -84,6 +84,11 @@ where
                     listener_addr.display(),
                     err
                 );
+                // Tell whoever unbinds / closes that the socket file is still there; a file
+                // that somebody else has already removed is what we wanted anyway.
+                if err.kind() != std::io::ErrorKind::NotFound {
+                    return Err(err.into());
+                }
             }
         }
         Ok(())
